@@ -21,6 +21,7 @@ Qed.
 Lemma key_eqb_refl a : key_eqb a a = true.
 Proof. apply key_eqb_eq. reflexivity. Qed.
 
+Ltac splits := repeat match goal with |- _ /\ _ => split end.
 Ltac guards :=
   repeat match goal with
          | H : rbind (guard ?b ?e) _ = ROk _ |- _ =>
@@ -805,4 +806,60 @@ Proof.
   - destruct (L_payout_withdraw _ _ _ _ _ _ _ H) as [f0 [E0 [_ [_ [_ [_ [_ [E1 _]]]]]]]].
     subst id. rewrite Ef in E0. injection E0 as <-. eexists. split; [exact E1|].
     cbn [f_settled f_wd]. split; [reflexivity|]. apply nth_set_nth_true. exact W.
+Qed.
+
+(* ---------- how each operation changes the dispute table, the clock ---------- *)
+Lemma register_step L p t m :
+  fst (step L (LRegister p t m)) = L
+  \/ exists D evs out, register_rec (S (length m)) (l_clock L) (l_disp L) p t m = ROk (D, evs, out)
+       /\ lp_ledger p = true /\ fst (step L (LRegister p t m)) = with_disp L D.
+Proof.
+  unfold step. cbn [step_res]. destruct (lp_ledger p); cbn [guard rbind]; [|left; reflexivity].
+  destruct (register_rec _ _ _ _ _ _) as [[[D evs] out]|e]; cbn [rbind fst]; [|left; reflexivity].
+  right. exists D, evs, out. auto.
+Qed.
+Lemma conclude_step' L p s m :
+  fst (step L (LConclude p s m)) = L
+  \/ exists evs, step_res L (LConclude p s m) = ROk (fst (step L (LConclude p s m)), evs).
+Proof.
+  unfold step. destruct (step_res L (LConclude p s m)) as [[L' evs]|e]; cbn [fst]; [right; eauto|left; reflexivity].
+Qed.
+Lemma concludefinal_step L p t :
+  fst (step L (LConcludeFinal p t)) = L
+  \/ (let s := tx_st t in
+      lp_ledger p = true /\ state_ok p s = true /\ st_final s = true /\ al_locked (st_alloc s) = []
+      /\ tx_signed p t = true
+      /\ (match bfind (l_disp L) (lp_id p) with Some d => d_phase d <> DConcluded | None => True end)
+      /\ fst (step L (LConcludeFinal p t))
+         = mkL (l_clock L) (l_acc L) (set_outcome (l_funds L) (lp_id p) (al_bals (st_alloc s)))
+               (bput (l_disp L) (lp_id p) (mkDisp p s (l_clock L) DConcluded))).
+Proof.
+  unfold step. destruct (step_res L (LConcludeFinal p t)) as [[L' evs]|e] eqn:E; cbn [fst]; [|left; reflexivity].
+  cbn [step_res] in E. guards. split_and.
+  match goal with X : (_ =? _)%nat = true |- _ => apply Nat.eqb_eq in X; apply length_zero_iff_nil in X end.
+  destruct (bfind (l_disp L) (lp_id p)) as [d|] eqn:Ed.
+  - destruct (dphase_eqb (d_phase d) DConcluded) eqn:Ec.
+    + guards. injection E as <- _. left. reflexivity.
+    + guards. injection E as <- _. right. cbv zeta. splits; auto.
+      intro X. rewrite X in Ec. discriminate.
+  - guards. injection E as <- _. right. cbv zeta. splits; auto.
+Qed.
+Lemma deposit_disp L p a i f m : l_disp (fst (step L (LDeposit p a i f m))) = l_disp L
+  /\ l_clock (fst (step L (LDeposit p a i f m))) = l_clock L.
+Proof.
+  unfold step. destruct (step_res L (LDeposit p a i f m)) as [[L' evs]|e] eqn:E; cbn [fst]; [|split; reflexivity].
+  destruct (L_funding_exact _ _ _ _ _ _ _ _ E) as (_ & _ & _ & _ & H1 & H2 & _). auto.
+Qed.
+Lemma withdraw_disp L p i s t : l_disp (fst (step L (LWithdraw p i s t))) = l_disp L
+  /\ l_clock (fst (step L (LWithdraw p i s t))) = l_clock L.
+Proof.
+  unfold step. destruct (step_res L (LWithdraw p i s t)) as [[L' evs]|e] eqn:E; cbn [fst]; [|split; reflexivity].
+  destruct (L_payout_withdraw _ _ _ _ _ _ _ E) as (f & _ & _ & _ & _ & _ & _ & _ & _ & H1 & H2 & _). auto.
+Qed.
+Lemma tick_step L n : fst (step L (LTick n)) = mkL (l_clock L + n) (l_acc L) (l_funds L) (l_disp L).
+Proof. reflexivity. Qed.
+Lemma register_clock L p t m : l_clock (fst (step L (LRegister p t m))) = l_clock L
+  /\ l_funds (fst (step L (LRegister p t m))) = l_funds L /\ l_acc (fst (step L (LRegister p t m))) = l_acc L.
+Proof.
+  destruct (register_step L p t m) as [->|(D & evs & out & _ & _ & ->)]; repeat split.
 Qed.
